@@ -73,7 +73,7 @@ def epoch_cases(rng, tier):
                         fam="F", md=md, n=qs, zone="%d %d" % z))
     for i in range(n):
         md = MODES[i % 4]
-        p = rand_tp(rng, md, decimals=(rng.random() < 0.2))
+        p = rand_tp(rng, md, decimals=(rng.random() < 0.3), year=(rng.choice([1969, 1969, 1970, 1, 1900]) if rng.random() < 0.3 else None))
         out.append(Case(["tounix %s %s" % (md, p)], ["tounix", "mode:" + md, "rep:" + p[0]], fam="T", md=md, p=p))
     return out
 
@@ -159,7 +159,7 @@ def judge(c):
     if I[0] != M[0]:
         res.append(("disagree", "%s: implementation %r, model %r" % (c.lines[0], I[0], M[0])))
     d = Fraction(M[2]) - Fraction(M[1])
-    if d >= 0 or d.denominator == 1:
+    if True:      # the whole number of seconds from the epoch to the instant: its floor, also before the epoch (F14 fixed)
         want = d.numerator // d.denominator
         if I[0] != str(want):
             res.append(("violation", "%s = %s but the instant is epoch + %s s" % (c.lines[0], I[0], d)))
